@@ -54,9 +54,12 @@ LinExts(kd) == {o \in [1 .. N -> Tasks] :
                   /\ \A i, j \in 1 .. N : i # j => o[i] # o[j]
                   /\ \A i, j \in 1 .. N : i < j => kd[<<o[i], o[j]>>] = "none"}
 OrdersOf(kd) == IF LinExts(kd) = {} THEN {IdOrder} ELSE LinExts(kd)
+Perms == {o \in [1 .. N -> Tasks] : \A i, j \in 1 .. N : i # j => o[i] # o[j]}
+(* a set of records filtered by a predicate: TLC keeps it lazy (a UNION of enumerated sets is built eagerly,
+   once per worker, when the constant definitions are processed) *)
 AnyConfigs(outs, inits) ==
-   UNION {{[kind |-> kd, outc |-> o, init |-> i, order |-> ord] : ord \in OrdersOf(kd)} :
-             kd \in [AllPairs -> Kinds], o \in [Tasks -> outs], i \in [Tasks -> inits]}
+   {c \in [kind : [AllPairs -> Kinds], outc : [Tasks -> outs], init : [Tasks -> inits], order : Perms] :
+       c.order \in OrdersOf(c.kind)}
 
 VARIABLES
    kind, outc, order,                  \* configuration (constant during a behaviour)
